@@ -41,6 +41,10 @@ func newMySQLUndoDeleteExecutor(sqlUndoLog undo.SQLUndoLog) *mySQLUndoDeleteExec
 }
 
 func (m *mySQLUndoDeleteExecutor) ExecuteOn(ctx context.Context, dbType types.DBType, conn *sql.Conn) error {
+	if m.sqlUndoLog.BeforeImage == nil || len(m.sqlUndoLog.BeforeImage.Rows) == 0 {
+		// the statement deleted no row: nothing to compensate
+		return nil
+	}
 
 	undoSql, _ := m.buildUndoSQL(dbType)
 
